@@ -61,8 +61,19 @@ def generate(rng, tier):
             builders.append(rg.CaseBuilder(batch, u, "f%s@%d" % (ip, fport), port, qs, cache=cache,
                                            flags={"kind": "fwd", "ff": "1", "modeok": "1"}, forwarder_ip=ip))
         else:
-            builders.append(rg.CaseBuilder(batch, u, mode, port, qs, cache=cache,
-                                           flags={"kind": kind + "-" + "+".join(fams), "ff": "1",
+            faults = "_"
+            ff = "1"
+            if rng.random() < 0.3:
+                # a nameserver that fails at the address first tried (silent, refusing, SERVFAIL, garbage): the resolver
+                # must not fall over to the other family's address while it holds one of the preferred family
+                plan = {}
+                for _ in range(rng.choice([1, 1, 2])):
+                    plan[rng.randint(0, 6)] = rng.choice(["drop", "refuse", "rcode2", "rcode5", "wrongid", "trunc12"])
+                faults = rg.fault_plan(plan)
+                ff = "0"
+                kind = kind + "-faulty"
+            builders.append(rg.CaseBuilder(batch, u, mode, port, qs, faults=faults, cache=cache,
+                                           flags={"kind": kind + "-" + "+".join(fams), "ff": ff,
                                                   "modeok": "1" if rg.mode_ok(u, mode) else "0"}))
     # local authoritative zones with delegations whose nameserver addresses are known locally (glue in the
     # zone, or cached): in forwarding mode the question beneath the cut must still go to the forwarder only,
